@@ -55,6 +55,12 @@ pub enum Act {
     /// `Terminal::run_render` with a scripted handler: step i draws `ch` at (0, col) and
     /// returns the action
     RunRender(Vec<RenderStep>),
+    /// `Terminal::position()`: cursor query + DA1 as sync event, blocking polls in between
+    QueryPosition,
+    /// execute `TerminalCommand::Image` for the session's test image at (1, 2)
+    DrawImage,
+    /// the terminal answers the last image placement with an error (kitty graphics response)
+    ImageError,
 }
 
 #[derive(Debug, Clone, Copy, PartialEq, Eq)]
@@ -84,6 +90,9 @@ pub struct Session {
     /// pixels) and DA1 only and the pty reports no pixel size, so the terminal object learns its
     /// size through escape sequences and asks again (from inside the poll loop) on SIGWINCH
     pub probe: bool,
+    /// (with `probe`) the peer also answers the kitty graphics query, so the terminal object uses
+    /// the kitty image handler
+    pub kitty: bool,
 }
 
 // ------------------------------------------------------------------ kernel model (Env)
@@ -554,6 +563,8 @@ pub struct Outcome {
     /// for run_render sessions: what the last rendered frame drew (row 0)
     pub render_last: Option<Vec<(usize, char)>>,
     pub render_result: Option<String>,
+    /// results of `position()` calls
+    pub positions: Vec<Result<(usize, usize), String>>,
 }
 
 fn open_pty_px(pixels: bool) -> Result<(OwnedFd, OwnedFd), String> {
@@ -603,6 +614,13 @@ pub fn payload(counter: &mut u32, n: usize) -> Vec<u8> {
         .collect()
 }
 
+pub fn test_image() -> (surf_n_term::Image, Position) {
+    use surf_n_term::{SurfaceMut, SurfaceOwned, RGBA};
+    let mut s = SurfaceOwned::new(surf_n_term::Size::new(3, 5));
+    s.fill_with(|p, _| RGBA::new(p.row as u8 * 40, p.col as u8 * 30, 7, 255));
+    (surf_n_term::Image::from(s), Position::new(1, 2))
+}
+
 pub fn prepare_process() {
     // no capability probing: the constructor must not talk to the terminal
     std::env::set_var("TERM", "dumb");
@@ -638,7 +656,15 @@ pub fn execute(session: &Session, upto: usize, choices: Choices, verbose: bool) 
         replies: vec![
             (b"\x1b[c".to_vec(), b"\x1b[?62;c".to_vec(), 0),
             (b"\x1b[18t\x1b[14t".to_vec(), b"\x1b[8;24;80t\x1b[4;480;800t".to_vec(), 0),
-        ],
+            (b"\x1b[6n".to_vec(), b"\x1b[3;5R".to_vec(), 0),
+        ]
+        .into_iter()
+        .chain(if session.kitty {
+            vec![(b"\x1b_Ga=q,i=31,s=1,v=1,f=24;AAAA\x1b\\".to_vec(), b"\x1b_Gi=31;OK\x1b\\".to_vec(), 0usize)]
+        } else {
+            vec![]
+        })
+        .collect(),
         explore: false,
         env_active: false,
         in_release: false,
@@ -663,6 +689,7 @@ pub fn execute(session: &Session, upto: usize, choices: Choices, verbose: bool) 
         crashed: upto < session.acts.len(),
         render_last: None,
         render_result: None,
+        positions: vec![],
     };
     sh.borrow_mut().env_active = true;
     let term = SystemTerminal::new_from_fd(slave);
@@ -699,6 +726,9 @@ pub fn execute(session: &Session, upto: usize, choices: Choices, verbose: bool) 
     let mut counter = 0u32;
     let mut poll_index = 0usize;
     let mut stop = false;
+    let mut shadow_handler = surf_n_term::KittyImageHandler::new();
+    let mut last_image_bytes: Vec<u8> = vec![];
+    let mut pending_redraw: Option<Vec<u8>> = None;
     let do_poll = |term: &mut SystemTerminal, expected: &mut Expected, t: Option<Duration>, poll_index: &mut usize, outcome: &mut Outcome, stop: &mut bool| {
         expected.flush();
         sh.borrow_mut().logf(|| format!("poll({:?})", t));
@@ -759,6 +789,54 @@ pub fn execute(session: &Session, upto: usize, choices: Choices, verbose: bool) 
                 sh.borrow_mut().perform(&inj);
             }
             Act::Schedule(inj) => sh.borrow_mut().scheduled.push_back(inj.clone()),
+            Act::QueryPosition => {
+                expected.append(b"\x1b[6n\x1b[c");
+                expected.flush();
+                sh.borrow_mut().logf(|| "position()".to_string());
+                let r = term.position();
+                sh.borrow_mut().logf(|| format!("  -> {:?}", r.as_ref().map_err(|e| format!("{e:?}"))));
+                match r {
+                    Ok(p) => outcome.positions.push(Ok((p.row, p.col))),
+                    Err(Error::Quit) => {
+                        outcome.positions.push(Err("Quit".into()));
+                        outcome.quit_seen = true;
+                        stop = true;
+                    }
+                    Err(e) => {
+                        outcome.positions.push(Err(format!("{e:?}")));
+                        stop = true;
+                    }
+                }
+            }
+            Act::DrawImage => {
+                let (img, pos) = test_image();
+                let mut b = vec![];
+                let _ = surf_n_term::ImageHandler::draw(&mut shadow_handler, &mut b, &img, pos);
+                sh.borrow_mut().logf(|| format!("execute(Image) -> {} bytes expected", b.len()));
+                let _ = term.execute(TerminalCommand::Image(img, pos));
+                expected.append(&b);
+                last_image_bytes = b;
+            }
+            Act::ImageError => {
+                // the response names the id / placement of the last put, as the terminal would
+                let text = String::from_utf8_lossy(&last_image_bytes).to_string();
+                let field = |k: &str| -> Option<u64> {
+                    let at = text.rfind(&format!("{k}="))?;
+                    text[at + k.len() + 1..].split(|c: char| !c.is_ascii_digit()).next()?.parse().ok()
+                };
+                if let (Some(i), Some(pl)) = (field("i"), field("p")) {
+                    let resp = format!("\x1b_Gi={i},p={pl};ENOENT:image not found\x1b\\");
+                    // what the handler must send in answer: computed with the shadow handler
+                    let mut b = vec![];
+                    let _ = surf_n_term::ImageHandler::handle(
+                        &mut shadow_handler,
+                        &mut b,
+                        &TerminalEvent::KittyImage { id: i, placement: Some(pl), error: Some("ENOENT:image not found".into()) },
+                    );
+                    pending_redraw = Some(b);
+                    sh.borrow_mut().perform(&Inject::Input(resp.into_bytes()));
+                }
+            }
             Act::RunRender(steps) => {
                 use surf_n_term::{Cell, Face, SurfaceMut, TerminalAction};
                 let mut i = 0usize;
@@ -797,6 +875,7 @@ pub fn execute(session: &Session, upto: usize, choices: Choices, verbose: bool) 
         }
     }
     let crash = upto < session.acts.len();
+    let redraw_chunk = pending_redraw.take();
     if !stop && !crash {
         // settle: drain events and output cooperatively (the explorer may still deviate)
         for _ in 0..40 {
@@ -814,6 +893,12 @@ pub fn execute(session: &Session, upto: usize, choices: Choices, verbose: bool) 
                 break;
             }
         }
+    }
+    if let Some(b) = redraw_chunk {
+        // written by the image handler from inside the poll loop once the error response was read
+        expected.flush();
+        let settled = !stop && !crash && sh.borrow().input.is_empty();
+        expected.chunks.push(Chunk { bytes: b, droppable: !settled });
     }
     // release the terminal (normally, after an error, after a quit, or at a crash point)
     {
@@ -982,11 +1067,16 @@ pub fn c17_problems(o: &Outcome, expect_events: &dyn Fn(&[u8]) -> Vec<TerminalEv
         .events
         .iter()
         .filter_map(|(_, r)| match r {
-            Ok(Some(ev)) if !matches!(ev, TerminalEvent::Wake | TerminalEvent::Resize(_) | TerminalEvent::Size(_) | TerminalEvent::DeviceAttrs(_)) => Some(ev.clone()),
+            Ok(Some(ev)) if !matches!(ev, TerminalEvent::Wake | TerminalEvent::Resize(_) | TerminalEvent::Size(_) | TerminalEvent::DeviceAttrs(_) | TerminalEvent::CursorPosition(_)) => Some(ev.clone()),
             _ => None,
         })
         .collect();
-    let want = expect_events(&all_input);
+    // graphics responses are consumed by the image handler, they are not owed to the application
+    let want: Vec<TerminalEvent> = expect_events(&all_input)
+        .into_iter()
+        .filter(|e| !matches!(e, TerminalEvent::KittyImage { .. }))
+        .collect();
+    let got: Vec<TerminalEvent> = got.into_iter().filter(|e| !matches!(e, TerminalEvent::KittyImage { .. })).collect();
     if complete_session {
         if got != want {
             p.push((
@@ -1013,6 +1103,18 @@ pub fn c17_problems(o: &Outcome, expect_events: &dyn Fn(&[u8]) -> Vec<TerminalEv
         if let Err(e) = r {
             if e != "Quit" && !o.deadlock && !o.horizon_hit {
                 p.push(("poll-error".into(), format!("poll returned an error: {e}")));
+            }
+        }
+    }
+    for r in &o.positions {
+        match r {
+            Ok((2, 4)) => {}
+            Ok(other) => p.push(("position".into(), format!("the terminal reported the cursor at row 3, column 5 but position() returned {:?}", other))),
+            Err(e) if e == "Quit" => {}
+            Err(e) => {
+                if !o.deadlock && !o.horizon_hit {
+                    p.push(("position-error".into(), format!("position() failed: {e}")))
+                }
             }
         }
     }
@@ -1058,13 +1160,14 @@ fn inp(s: &[u8]) -> Inject {
 pub fn sessions_c16() -> Vec<Session> {
     use Act::*;
     let mut v = vec![];
-    v.push(Session { name: "write-poll", acts: vec![Write(5), Poll(Some(0))], allowed: vec![], stall_selects: 0, probe: false });
+    v.push(Session { name: "write-poll", acts: vec![Write(5), Poll(Some(0))], allowed: vec![], stall_selects: 0, probe: false, kitty: false });
     v.push(Session {
         name: "two-frames",
         acts: vec![Write(1), Flush, Write(5), Flush, Poll(Some(0)), Poll(Some(0))],
         allowed: vec![],
         stall_selects: 0,
         probe: false,
+        kitty: false,
     });
     v.push(Session {
         name: "exec-mix",
@@ -1077,14 +1180,16 @@ pub fn sessions_c16() -> Vec<Session> {
         allowed: vec![],
         stall_selects: 0,
         probe: false,
+        kitty: false,
     });
-    v.push(Session { name: "big-write", acts: vec![Write(200 * 1024), Poll(Some(0)), Poll(Some(0))], allowed: vec![], stall_selects: 0, probe: false });
+    v.push(Session { name: "big-write", acts: vec![Write(200 * 1024), Poll(Some(0)), Poll(Some(0))], allowed: vec![], stall_selects: 0, probe: false, kitty: false });
     v.push(Session {
         name: "drop-after-partial",
         acts: vec![Write(6), Flush, Write(4), Flush, Write(3), Poll(Some(0)), FramesDrop, Write(2), Poll(Some(0))],
         allowed: vec![],
         stall_selects: 0,
         probe: false,
+        kitty: false,
     });
     v.push(Session {
         name: "drop-many",
@@ -1092,6 +1197,7 @@ pub fn sessions_c16() -> Vec<Session> {
         allowed: vec![],
         stall_selects: 0,
         probe: false,
+        kitty: false,
     });
     let mut many = vec![];
     for _ in 0..34 {
@@ -1100,13 +1206,14 @@ pub fn sessions_c16() -> Vec<Session> {
     }
     many.push(FramesDrop);
     many.push(Poll(Some(0)));
-    v.push(Session { name: "drop-34-frames", acts: many, allowed: vec![], stall_selects: 0, probe: false });
+    v.push(Session { name: "drop-34-frames", acts: many, allowed: vec![], stall_selects: 0, probe: false, kitty: false });
     v.push(Session {
         name: "poll-finite",
         acts: vec![Write(5), Poll(Some(5)), Write(2), Poll(Some(5))],
         allowed: vec![],
         stall_selects: 0,
         probe: false,
+        kitty: false,
     });
     v.push(Session {
         name: "poll-blocking",
@@ -1114,6 +1221,7 @@ pub fn sessions_c16() -> Vec<Session> {
         allowed: vec![],
         stall_selects: 0,
         probe: false,
+        kitty: false,
     });
     v.push(Session {
         name: "interleaved",
@@ -1130,6 +1238,7 @@ pub fn sessions_c16() -> Vec<Session> {
         allowed: vec![],
         stall_selects: 0,
         probe: false,
+        kitty: false,
     });
     {
         use RenderAction::*;
@@ -1144,6 +1253,7 @@ pub fn sessions_c16() -> Vec<Session> {
             allowed: vec![],
             stall_selects: 0,
             probe: false,
+            kitty: false,
         });
         // the tty does not accept anything while 36 frames are produced: the render loop drops
         // pending frames (more than 32 pending), then the tty opens up
@@ -1156,39 +1266,40 @@ pub fn sessions_c16() -> Vec<Session> {
             allowed: vec![],
             stall_selects: 38,
             probe: false,
+            kitty: false,
         });
     }
     v.push(Session {
         name: "output-with-input",
         acts: vec![Write(4), Arrive(inp(b"k")), Poll(Some(0)), Write(3), Poll(Some(0))],
-        allowed: vec![(Inject::Wake, 1)], stall_selects: 0, probe: false });
+        allowed: vec![(Inject::Wake, 1)], stall_selects: 0, probe: false, kitty: false });
     v
 }
 
 pub fn sessions_c17() -> Vec<Session> {
     use Act::*;
     vec![
-        Session { name: "wake-blocking", acts: vec![Schedule(inp(b"a")), Poll(None)], allowed: vec![(Inject::Wake, 2)], stall_selects: 0, probe: false },
-        Session { name: "wake-output", acts: vec![Write(5), Poll(Some(0)), Poll(Some(5))], allowed: vec![(Inject::Wake, 2)], stall_selects: 0, probe: false },
-        Session { name: "wake-idle", acts: vec![Poll(Some(0)), Poll(Some(0))], allowed: vec![(Inject::Wake, 1)], stall_selects: 0, probe: false },
+        Session { name: "wake-blocking", acts: vec![Schedule(inp(b"a")), Poll(None)], allowed: vec![(Inject::Wake, 2)], stall_selects: 0, probe: false, kitty: false },
+        Session { name: "wake-output", acts: vec![Write(5), Poll(Some(0)), Poll(Some(5))], allowed: vec![(Inject::Wake, 2)], stall_selects: 0, probe: false, kitty: false },
+        Session { name: "wake-idle", acts: vec![Poll(Some(0)), Poll(Some(0))], allowed: vec![(Inject::Wake, 1)], stall_selects: 0, probe: false, kitty: false },
         Session {
             name: "winch",
             acts: vec![Write(5), Poll(Some(0)), Poll(Some(5))],
-            allowed: vec![(Inject::Winch, 1), (Inject::Wake, 1)], stall_selects: 0, probe: false },
+            allowed: vec![(Inject::Winch, 1), (Inject::Wake, 1)], stall_selects: 0, probe: false, kitty: false },
         Session {
             name: "term",
             acts: vec![Write(5), Poll(Some(0)), Poll(Some(5)), Poll(Some(0))],
-            allowed: vec![(Inject::Term, 1)], stall_selects: 0, probe: false },
+            allowed: vec![(Inject::Term, 1)], stall_selects: 0, probe: false, kitty: false },
         Session {
             name: "input-bytes",
             acts: vec![Write(4), Arrive(inp(b"\xc3")), Poll(Some(0)), Poll(Some(5)), Poll(Some(0))],
-            allowed: vec![(inp(b"\xa9\x1b["), 1), (inp(b"A"), 1)], stall_selects: 0, probe: false },
-        Session { name: "hangup", acts: vec![Write(5), Poll(Some(0)), Poll(Some(5))], allowed: vec![(Inject::Hangup, 1)], stall_selects: 0, probe: false },
+            allowed: vec![(inp(b"\xa9\x1b["), 1), (inp(b"A"), 1)], stall_selects: 0, probe: false, kitty: false },
+        Session { name: "hangup", acts: vec![Write(5), Poll(Some(0)), Poll(Some(5))], allowed: vec![(Inject::Hangup, 1)], stall_selects: 0, probe: false, kitty: false },
         Session {
             name: "mixed",
             acts: vec![Write(3), Schedule(inp(b"q")), Poll(None), Poll(Some(0))],
-            allowed: vec![(Inject::Wake, 1), (Inject::Winch, 1), (inp(b"z"), 1)], stall_selects: 0, probe: false },
-        Session { name: "big-wake", acts: vec![Write(200 * 1024), Poll(Some(0)), Poll(Some(0))], allowed: vec![(Inject::Wake, 1)], stall_selects: 0, probe: false },
+            allowed: vec![(Inject::Wake, 1), (Inject::Winch, 1), (inp(b"z"), 1)], stall_selects: 0, probe: false, kitty: false },
+        Session { name: "big-wake", acts: vec![Write(200 * 1024), Poll(Some(0)), Poll(Some(0))], allowed: vec![(Inject::Wake, 1)], stall_selects: 0, probe: false, kitty: false },
         Session {
             name: "stale-da1-at-release",
             acts: vec![
@@ -1201,6 +1312,7 @@ pub fn sessions_c17() -> Vec<Session> {
             allowed: vec![],
             stall_selects: 0,
             probe: false,
+            kitty: false,
         },
         Session {
             name: "escape-size-winch",
@@ -1208,6 +1320,7 @@ pub fn sessions_c17() -> Vec<Session> {
             allowed: vec![(Inject::Winch, 1), (Inject::Wake, 1)],
             stall_selects: 0,
             probe: true,
+            kitty: false,
         },
         Session {
             name: "escape-size-output",
@@ -1215,11 +1328,28 @@ pub fn sessions_c17() -> Vec<Session> {
             allowed: vec![(Inject::Winch, 1)],
             stall_selects: 0,
             probe: true,
+            kitty: false,
+        },
+        Session {
+            name: "position-query",
+            acts: vec![Write(4), Arrive(inp(b"k")), QueryPosition, Poll(Some(0)), Poll(Some(0))],
+            allowed: vec![(Inject::Wake, 1)],
+            stall_selects: 0,
+            probe: false,
+            kitty: false,
+        },
+        Session {
+            name: "kitty-error-redraw",
+            acts: vec![DrawImage, Poll(Some(0)), ImageError, Poll(Some(5)), Poll(Some(0))],
+            allowed: vec![(Inject::Wake, 1)],
+            stall_selects: 0,
+            probe: true,
+            kitty: true,
         },
         Session {
             name: "quit-with-pending-input",
             acts: vec![Arrive(inp(b"ab")), Poll(Some(0)), Poll(Some(0)), Poll(Some(0))],
-            allowed: vec![(Inject::Term, 1)], stall_selects: 0, probe: false },
+            allowed: vec![(Inject::Term, 1)], stall_selects: 0, probe: false, kitty: false },
     ]
 }
 
@@ -1467,6 +1597,7 @@ pub fn conformance_run(session: &Session, pace_us: u64) -> Result<Outcome, Strin
         crashed: false,
         render_last: None,
         render_result: None,
+        positions: vec![],
     };
     let mut term = SystemTerminal::new_from_fd(slave).map_err(|e| format!("{e:?}"))?;
     let mut expected = Expected::default();
@@ -1515,7 +1646,7 @@ pub fn conformance_run(session: &Session, pace_us: u64) -> Result<Outcome, Strin
             Act::Arrive(Inject::Wake) | Act::Schedule(Inject::Wake) => {
                 let _ = term.waker().wake();
             }
-            Act::Arrive(_) | Act::Schedule(_) | Act::RunRender(_) => {}
+            Act::Arrive(_) | Act::Schedule(_) | Act::RunRender(_) | Act::QueryPosition | Act::DrawImage | Act::ImageError => {}
         }
     }
     for _ in 0..200 {
